@@ -93,7 +93,7 @@ def register_fluxerr(reg):
         '_error': ('const', 'given'), '_data_unit': None,
         '_error_values': ('seq', ('arr', 1, 'real', 'anydtype'))})
     reg.add(Contract(
-        target=f'{S}.segment_fluxerr', props=['C07'], kind='property',
+        target=f'{S}.segment_fluxerr', props=['C07', 'C15'], kind='property',
         params={'self': 'SourceCatalogErr'},
         ensures=[('one-value-per-source', 'len(result) == len(self._error_values)')],
         note='the decisive obligation is the in-body one: squares are taken after astype(float)',
